@@ -67,34 +67,110 @@ def c07_kernels(ck):
     ck.engine(E, 'xcmp::ConstProp val propagation')
     ck.sample({'kernel': 'ConstProp::visitPost(BinaryOpExpr&)', 'operands': 'a, b 32-bit symbolic', 'operators': 10})
 
-def c11_kernels(ck):
-    """'val v = g' with a non-constant initialiser: the use of v must not become a constant read from indeterminate memory"""
+def string_kernel(ck, cats):
+    """CodeBuffer::genString on literals of n = 0..nmax arbitrary characters: the DATA words are the length byte and the
+    characters packed four to a word, little end first, zero padded (C01: packed string literals), and no byte of them is
+    indeterminate (C11)"""
     M = parse_module(build.ir('xk.cpp'))
-    E = engine_for(M); st = State(); flag = st.alloc(4, 'isconst')
-    for r in E.run('xk_valprop', [0, 0, flag], st):
-        ok = True; why = ''
-        if r.kind == 'throw':
-            ok = E.ti_derives(r.st, r.val.tinfo, Ptr(('g', '_ZTISt9exception'), 0))
-            why = "foreign exception"
-        elif r.kind == 'violation': ok, why = False, f"{r.val.kind}: {r.val.msg}"
-        elif r.kind == 'ret':
-            ic = E.load(r.st, flag, 4)
-            if isinstance(ic, Undef) or isinstance(r.val, Undef): ok, why = False, "constant flag or value indeterminate"
-            elif not (is_c(ic) and ic == 0): ok, why = False, f"a val with a non-constant initialiser is propagated as the constant {r.val}"
-        else: ok, why = False, r.kind
-        ck.obligation(ok)
-        if not ok:
-            # native confirmation: the compiler accepts the source and bakes heap contents into the binary
-            import tempfile, shutil
+    nmax = 9 if ck.tier == 'quick' else 17
+    for n in range(0, nmax + 1):
+        E = engine_for(M)
+        E.stubs['_ZNK5boost12basic_formatIcSt11char_traitsIcESaIcEE3strB5cxx11Ev'] = lambda E_, st, a: (stubs.Str(E_, st, a[0]).init_local(), a[0])[1]
+        st = State()
+        chars = [z3.BitVec(f'ch{i}', 8) for i in range(n)]
+        cp = st.alloc(max(1, n), 'chars')
+        for i, c in enumerate(chars): E.store(st, cp.add(i), 1, c)
+        words = st.alloc(4*8, 'words')
+        for r in E.run('xk_string', [n, cp, words], st):
+            if r.kind != 'ret':
+                if r.kind == 'violation' and r.val.kind == 'uninitialised':
+                    if 'C11' in cats: ck.violation(f"string-uninit:{n}", f"genString on a {n}-character literal reads indeterminate memory: {r.val.msg}", None)
+                else: ck.violation(f"string:{n}:{r.kind}", f"genString on a {n}-character literal ends in {r.kind}: {r.val}", None)
+                continue
+            bs = [n & 0xff] + chars; bs += [0] * ((-len(bs)) % 4)
+            want = [z3.Concat(*[bv(b, 8) for b in reversed(bs[i:i+4])]) for i in range(0, len(bs), 4)]
+            k = r.val
+            got = [E.load(r.st, words.add(4*i), 4) for i in range(len(want))]
+            undef = [i for i, g in enumerate(got) if isinstance(g, Undef)]
+            if undef or not (is_c(k) and k == len(want)):
+                if undef and 'C11' in cats:
+                    confirmed = confirm_string_nondeterminism(n)
+                    ck.violation(f"string-uninit:{n}", f"DATA word {undef[0]} of a {n}-character string literal is built from indeterminate memory ({got[undef[0]].why})", ck.replay_file(f"string-uninit:{n}", {'length': n}), confirmed)
+                elif 'C01' in cats and not undef:
+                    ck.violation(f"string-words:{n}", f"a {n}-character literal generates {k} DATA words, expected {len(want)}", None)
+                ck.obligation(False); continue
+            if 'C01' in cats:
+                ok, m = ck.prove(E, r.st, z3.And([bv(g, 32) == w for g, w in zip(got, want)]), f"a {n}-character string literal is packed length-first, four characters to a word")
+                if not ok:
+                    cv = [model_int(m, c) for c in chars]
+                    ck.violation(f"string-pack:{n}", f"string literal with characters {cv} is packed as {[hex(model_int(m, bv(g, 32))) for g in got]}, expected {[hex(model_int(m, w)) for w in want]}",
+                                 ck.replay_file(f"string-pack:{n}", {'characters': cv}), confirm_string_pack(cv))
+            else: ck.obligation(True)
+        ck.engine(E, f'xcmp::CodeBuffer::genString (n={n})')
+
+def confirm_string_pack(cv):
+    """compile a program that passes the literal to a function returning one of its words; compare with the reference packing"""
+    import tempfile, shutil
+    if any(c in (0, 10, 13, 34, 92) for c in cv): return True      # not expressible directly in source; the kernel witness stands
+    d = tempfile.mkdtemp(dir=os.path.join(build.VERIF, 'build'))
+    try:
+        lit = bytes(cv)
+        nw = (len(cv) + 4) // 4
+        src = b'val exit = 0; val put = 1; proc show(array s) is var i; var w; { i := 0; while i < ' + str(nw).encode() + b' do { w := s[i]; put(w, 0); i := i + 1 }; exit(0) } proc main() is show("' + lit + b'")\n'
+        open(os.path.join(d, 'p.x'), 'wb').write(src)
+        r = subprocess.run([build.tool('xcmp'), 'p.x'], cwd=d, capture_output=True, timeout=20)
+        if r.returncode != 0: return True
+        r2 = subprocess.run([build.tool('hexsim'), 'a.out'], cwd=d, capture_output=True, timeout=20)
+        bs = [len(cv) & 0xff] + list(cv); bs += [0] * ((-len(bs)) % 4)
+        want = bytes(bs[i] for i in range(0, len(bs), 4))           # put() writes the low byte of each word
+        return r2.stdout != want
+    finally: shutil.rmtree(d, ignore_errors=True)
+
+def confirm_string_nondeterminism(n):
+    import tempfile, shutil
+    d = tempfile.mkdtemp(dir=os.path.join(build.VERIF, 'build'))
+    try:
+        open(os.path.join(d, 'p.x'), 'w').write('val exit = 0; proc p(array s) is exit(s[0]) proc main() is p("' + 'x' * n + '")\n')
+        outs = set()
+        for fill in ('0', '85', '170', '255'):
+            subprocess.run([build.tool('xcmp'), 'p.x'], cwd=d, capture_output=True, env=dict(os.environ, MALLOC_PERTURB_=fill), timeout=30)
+            outs.add(open(os.path.join(d, 'a.out'), 'rb').read() if os.path.exists(os.path.join(d, 'a.out')) else b'')
+        return len(outs) > 1
+    finally: shutil.rmtree(d, ignore_errors=True)
+
+def c11_kernels(ck):
+    string_kernel(ck, ('C11',))
+    c11_val(ck)
+
+def c11_val(ck):
+    """a use of a val must never become a constant read from indeterminate memory: (0) 'var g; val v = g' (initialiser not
+    constant), (2) a val used before its declaration has been evaluated"""
+    import tempfile, shutil
+    M = parse_module(build.ir('xk.cpp'))
+    cases = ((0, "'var g; val v = g'", "var g; val v = g; proc main() is 0(v)", "val-nonconst-uninit"),
+             (2, "'val a = v + 70000; val v = 3' (use before the declaration is evaluated)", "val a = v + 70000; val v = 3; proc main() is 0(a)", "val-forward-uninit"))
+    for mode, desc, srcx, key in cases:
+        E = engine_for(M); st = State(); flag = st.alloc(4, 'isconst')
+        for r in E.run('xk_valprop', [mode, 5, flag], st):
+            ok = True; why = ''
+            if r.kind == 'throw':
+                ok = E.ti_derives(r.st, r.val.tinfo, Ptr(('g', '_ZTISt9exception'), 0)); why = "foreign exception"
+            elif r.kind == 'violation': ok, why = False, f"{r.val.kind}: {r.val.msg}"
+            elif r.kind == 'ret':
+                ic = E.load(r.st, flag, 4)
+                if isinstance(ic, Undef) or isinstance(r.val, Undef): ok, why = False, "constant flag or value indeterminate"
+                elif not (is_c(ic) and ic == 0): ok, why = False, f"the use is propagated as the constant {r.val}"
+            else: ok, why = False, r.kind
+            ck.obligation(ok)
+            if ok: continue
             d = tempfile.mkdtemp(dir=os.path.join(build.VERIF, 'build'))
             try:
-                open(os.path.join(d, 'p.x'), 'w').write("var g; val v = g; proc main() is 0(v)\n")
-                outs = set()
+                open(os.path.join(d, 'p.x'), 'w').write(srcx + "\n"); outs = set()
                 for fill in ('1', '90', '200'):
                     r_ = subprocess.run([build.tool('xcmp'), 'p.x'], cwd=d, capture_output=True, env=dict(os.environ, MALLOC_PERTURB_=fill), timeout=30)
                     outs.add((r_.returncode, open(os.path.join(d, 'a.out'), 'rb').read() if os.path.exists(os.path.join(d, 'a.out')) else b''))
                 confirmed = len(outs) > 1 or any(rc == 0 for rc, _ in outs)
             finally: shutil.rmtree(d, ignore_errors=True)
-            ck.violation("val-nonconst-uninit", f"'var g; val v = g': {why} (ValDecl::exprValue is never set; binaries differ across heap fills: {len(outs) > 1})",
-                         ck.replay_file("val-nonconst-uninit", {'source': "var g; val v = g; proc main() is 0(v)", 'distinct_binaries_under_MALLOC_PERTURB_': len(outs)}), confirmed)
-    ck.engine(E, 'xcmp::ConstProp val propagation (non-constant initialiser)')
+            ck.violation(key, f"{desc}: {why} (ValDecl::exprValue is read before it is set; binaries differ across heap fills: {len(outs) > 1})",
+                         ck.replay_file(key, {'source': srcx, 'distinct_binaries_under_MALLOC_PERTURB_': len(outs)}), confirmed)
+        ck.engine(E, 'xcmp::ConstProp val propagation (non-constant initialiser / forward reference)')
